@@ -1003,7 +1003,7 @@ def M2(vc):
         vc.emit('build_response', kw, list(kw.get('warnings') or [])); return response
     vc.used('admission.find_resource', 'M3'); vc.used('admission.build_response', 'M1')
     vc.used('registries.WebhooksRegistry.get_handlers', 'R5'); vc.used('execution.execute_handlers_once', 'X2')
-    vc.used('inventory.ResourceMemories.recall_memo', 'V1'); vc.used('patches.Patch.as_json_patch', 'A5')
+    vc.used('inventory.ResourceMemories.recall_memo', 'V1'); vc.used('patches.Patch.as_json_patch', 'A5j (deductive) + A5 (bounded, the real jsonpatch)')
     ld = vc.load('kopf._core.engines.admission', 'serve_admission_request', stubs={
         'find_resource': find_resource, 'bodies.Body': Body, 'diffs.diff': diff, 'patches.Patch': Patch,
         'loggers.LocalObjectLogger': LocalObjectLogger, 'progression.State': State,
